@@ -1,12 +1,17 @@
-(* C07BytesHistory.v -- C07, byte level, part 3 (table format): the corollaries.
-     inc_table_step_created   the update document built by create_from + the modelled edits meets the trailer part of
-                              the domain by construction (Prev, no XRefStm, no Encrypt, binary mark)
-     inc_save_reload_table    save, load, create_from, edit, inc_save, load: the objects are the overlay
-     lopdf_history            a saved file followed by ANY NUMBER of incremental saves, each made from the previous
-                              file bytes and from what load returned for them
-     history_good / history_loads   every file of a history satisfies the invariant, hence loads, with objects = the
-                              fold of the overlays -- and can therefore be updated again
-     example                  a concrete document and update (object 1 replaced, object 3 added) *)
+(* C07BytesHistory.v -- C07, byte level, part 3: the corollaries.
+     inc_table_good_nums      Theorem C (table) with the hypothesis phrased on the loaded objects only
+     created_frame / created_upd_dom   the update document built by create_from + the modelled edits meets the trailer
+                              part of the domain by construction (Prev, no XRefStm, no Encrypt, binary mark, max_id)
+     inc_table_step_created   Theorem C for such an update
+     inc_save_reload_table    save, load, create_from, edit, inc_save, load (table format): every field of the result
+     lopdf_history            a saved file (EITHER cross-reference format) followed by ANY NUMBER of incremental saves,
+                              each made from the previous file bytes and from what load returned for them
+     history_good / history_loads   every file of a history satisfies the invariant of C07Bytes.v (a chain of k
+                              well-formed revisions whose merged table maps each number to the exact offset of the object
+                              in the newest revision defining it), hence loads, with objects = the fold of the overlays
+                              -- and can therefore be updated again
+     history_edit_step        an update made through the modelled API is a step of a history, no trailer hypothesis
+     inc_save_reload          save, load, create_from, edit, inc_save, load, either format *)
 From LV Require Import Base.Bytes Base.Sx Model.Obj Model.DocQ Model.Writer Model.Parser Model.Save Model.Xref Model.Loader
   Model.Incremental Model.Utf Gen.Lex Gen.SaveFmt Gen.Inc Proofs.IncrementalProofs Proofs.LexProofs Proofs.RealProofs
   Proofs.ObjectRtProofs Proofs.SaveProofs Proofs.FilterProofsDict Spec.SaveSpec Proofs.LoadProofs Proofs.LoadProofsFile
